@@ -45,6 +45,9 @@ pub fn install_quiet_hook() {
             let loc = info.location().map(|l| format!(" at {}:{}", l.file(), l.line())).unwrap_or_default();
             if std::env::var("RDBCHECK_VERBOSE_PANICS").is_ok() {
                 eprintln!("[panic] {}{}", msg, loc);
+                if std::env::var("RDBCHECK_VERBOSE_PANICS").map(|v| v == "bt").unwrap_or(false) {
+                    eprintln!("{}", std::backtrace::Backtrace::force_capture());
+                }
             }
             let mut g = match LAST_PANIC.lock() {
                 Ok(g) => g,
